@@ -311,10 +311,11 @@ def token_classes():
     from pygments.token import Token as T
     from codelimit.common.Token import Token
     from codelimit.common.Location import Location
-    kinds = {"kw": T.Keyword, "kwdecl": T.Keyword.Declaration, "name": T.Name, "namefn": T.Name.Function, "punct": T.Punctuation,
-             "op": T.Operator, "text": T.Text, "lit": T.Literal.Number, "nameother": T.Name.Other}
-    values = ["(", ")", "{", "}", ";", ":", "=", "=>", "function", "const", "async", "def", "throws", "record", "new", "x", "noexcept",
-              "override", ","]
+    # every token type Pygments defines (Keyword.Type, Name.Other, Operator.Word, the comment and string kinds, ...)
+    from pygments.token import STANDARD_TYPES
+    kinds = {(".".join(str(t).split(".")[1:]) or "Token"): t for t in STANDARD_TYPES}
+    values = ["(", ")", "{", "}", "[", "]", ";", ":", "=", "=>", "function", "const", "let", "var", "async", "def", "throws", "record", "new", "x",
+              "noexcept", "override", "final", "class", ","]
     out = []
     for kn, kt in kinds.items():
         for v in values:
